@@ -12,7 +12,7 @@ import (
 // ---------------------------------------------------------------------------
 // DETERM
 
-const ruleDETERMText = "Create's output is a function of its inputs only: on the call-graph closure of the Create entry points (D-a) no call of time.*, math/rand, crypto/rand, os.Getenv/Environ/Getpid/Hostname/Getuid...; (D-b) every range over a map has an order-insensitive body (map stores, appends to a slice that is sorted afterwards, pure computation) or ranges over a struct field that no function on the closure ever stores; (D-c) every store to Encoder.recoverySet is dominated by sort.Slice on that slice with a comparator calling fileIDLess; (D-d) the names hashed into file ids derive from filepath.Rel(Dir(Abs(parPath)), Abs(p)) for every input path (par1: filepath.Base(p))"
+const ruleDETERMText = "Create's output is a function of its inputs only: on the call-graph closure of the Create entry points (D-a) no call of time.*, math/rand, crypto/rand, os.Getenv/Environ/Getpid/Hostname/Getuid...; (D-b) every range over a map has an order-insensitive body (map stores, appends to a slice that is sorted afterwards, pure computation) or ranges over a struct field that no function on the closure ever stores; (D-c) every store to Encoder.recoverySet is dominated by sort.Slice on that slice with a comparator calling fileIDLess; (D-d) the names hashed into file ids derive from filepath.Rel(Dir(Abs(parPath)), Abs(p)) for every input path (par1: filepath.Base(p)); (D-e) no argument of newEncoder other than the goroutine count depends on the goroutine option"
 
 var ambientCallees = map[string]bool{
 	"os.Getenv": true, "os.LookupEnv": true, "os.Environ": true, "os.Getpid": true, "os.Getppid": true, "os.Hostname": true,
@@ -200,6 +200,7 @@ func ruleDETERM(w *World, r *Report) {
 	} else {
 		r.unk("DETERM", "D-d:par2.create", "-", "function not found")
 	}
+	determGoroutineOption(w, r)
 	// the name hashed is the relative path
 	if fn := w.Fn("(*par2.Encoder).LoadFileData"); fn != nil {
 		cs := callsIn(fn, "par2.computeDataFileInfo")
@@ -358,4 +359,41 @@ func orderSensitive(w *World, fn *ssa.Function, rg *ssa.Range) string {
 		}
 	}
 	return ""
+}
+
+func determGoroutineOption(w *World, r *Report) {
+	// D-e: the goroutine option reaches only the encoder's goroutine parameter
+	if fn := w.Fn("par2.create"); fn != nil {
+		ne := callsIn(fn, "par2.newEncoder")
+		if len(ne) == 1 {
+			args := ne[0].Common().Args
+			bad := ""
+			for i, a := range args {
+				if i == len(args)-1 {
+					continue // numGoroutines itself
+				}
+				backSlice(a, func(v ssa.Value) bool {
+					if cl, ok := v.(*ssa.Call); ok {
+						if n := staticCalleeShort(&cl.Call); n == "par2.NumGoroutinesDefault" || n == "rsec16.DefaultNumGoroutines" {
+							bad = "argument " + fmt.Sprint(i) + " of newEncoder depends on " + n + "()"
+						}
+					}
+					if f, ok := v.(*ssa.Field); ok && fieldName(f.X.Type(), f.Field) == "NumGoroutines" {
+						bad = "argument " + fmt.Sprint(i) + " of newEncoder depends on options.NumGoroutines"
+					}
+					if ld, ok := v.(*ssa.UnOp); ok {
+						if fa, ok := ld.X.(*ssa.FieldAddr); ok && fieldName(fa.X.Type(), fa.Field) == "NumGoroutines" {
+							bad = "argument " + fmt.Sprint(i) + " of newEncoder depends on options.NumGoroutines"
+						}
+					}
+					return bad == ""
+				})
+			}
+			if bad == "" {
+				r.ok("DETERM", "D-e:par2.create:goroutine-option", w.ipos(ne[0]), "slice size, block count and paths handed to the encoder do not depend on the goroutine option")
+			} else {
+				r.bad("DETERM", "D-e:par2.create:goroutine-option", w.ipos(ne[0]), "what Create writes depends on the goroutine count: "+bad)
+			}
+		}
+	}
 }
